@@ -1020,19 +1020,32 @@ def _compare_remainder(remainder: e.Expr, ref_remainder: e.Expr,
     #    idx in the eri part and the denom have to be identical
     # -> need to be solved at another point
 
-    difference = remainder - ref_remainder
-    if len(difference) == 1:  # already identical -> 0 or added to 1 term
-        return 1 if difference.sympy is S.Zero else -1
-    # check if the eri parts of both remainders can be mapped onto each other
-    factored = factor_eri_parts(difference)
-    if len(factored) > 1:  # eri parts not compatible
-        return None
+    def vanishes(expr: e.Expr) -> bool | None:
+        # True/False: the expression does (not) vanish
+        # None: eri parts or denominators of the terms are not compatible
+        if expr.sympy is S.Zero:
+            return True
+        elif len(expr) == 1:  # added to a single, non-vanishing term
+            return False
+        # check if the eri parts of the terms can be mapped onto each other
+        factored = factor_eri_parts(expr)
+        if len(factored) > 1:  # eri parts not compatible
+            return None
+        # check if the denominators are compatible too.
+        factored = factor_denom(factored[0])
+        if len(factored) > 1:  # denominators are not compatible
+            return None
+        return factored[0].sympy is S.Zero
 
-    # check if the denominators are compatible too.
-    factored = factor_denom(factored[0])
-    if len(factored) > 1:  # denominators are not compatible
+    # remainder == ref_remainder?
+    is_zero = vanishes(remainder - ref_remainder)
+    if is_zero is None:
         return None
-    return 1 if factored[0].sympy is S.Zero else -1
+    elif is_zero:
+        return 1
+    # remainder == -ref_remainder? Both might also differ by more than
+    # a sign, e.g., by their orbital energy numerators.
+    return -1 if vanishes(remainder + ref_remainder) else None
 
 
 class LongItmdVariants(dict):
